@@ -153,6 +153,11 @@ class _Expr(SymEval):
     def _e_Attribute_rec(self, n):
         if isinstance(n.value, ast.Name) and n.value.id in self.np_names:
             return super().e_Attribute(n)
+        if isinstance(n.value, ast.Name) and n.value.id not in self.env and n.attr in ("IGNORECASE", "I", "MULTILINE", "M", "DOTALL", "S", "VERBOSE", "X", "ASCII", "A"):
+            mod = getattr(self.owner, "module", None) or (self.owner.cls.module if self.owner.cls else None)
+            r = self.owner.prog.resolve_expr(None, mod, n) if mod is not None else None
+            if r is not None and r[0] == "external" and r[1].startswith("re."):
+                return getattr(_re, n.attr)  # a flag constant of the regular-expression module
         if isinstance(n.value, ast.Name) and n.value.id not in self.env and getattr(self.owner, "ext_stubs", None):
             # a class / constant of an external module handed on as a value (argparse.RawTextHelpFormatter given to a
             # modelled ArgumentParser): an opaque token; any use other than passing it on is outside the fragment
@@ -165,6 +170,8 @@ class _Expr(SymEval):
             raise Raised("AttributeError")
         if isinstance(base, Rec):
             return self.owner.get(base, n.attr)
+        if isinstance(base, _re.Match) and n.attr in ("lastgroup", "lastindex", "pos", "endpos", "string"):
+            return getattr(base, n.attr)
         if isinstance(base, np.ndarray) and n.attr in ("T", "shape", "size", "ndim"):
             return getattr(base, n.attr)
         if isinstance(base, np.ndarray) and n.attr == "flat":
@@ -476,9 +483,12 @@ class _Expr(SymEval):
                 return self.owner.ext_stubs[r[1]](self._args(n), {k.arg: self.eval(k.value) for k in n.keywords if k.arg is not None})
             if r is not None and r[0] == "external" and r[1] in _PURE_EXTERNALS:
                 args = self._args(n)
-                if not all(isinstance(a, str) for a in args):
+                if not all(isinstance(a, (str, int, _re.RegexFlag, _re.Pattern)) and not isinstance(a, bool) for a in args):
                     raise NotSymbolic(f"{r[1]} on non-constant arguments")
-                return _prog_call(_PURE_EXTERNALS[r[1]], *args)
+                kw_ = {k.arg: self.eval(k.value) for k in n.keywords if k.arg is not None}
+                if not all(isinstance(v, (str, int, _re.RegexFlag)) for v in kw_.values()):
+                    raise NotSymbolic(f"{r[1]} on non-constant keyword arguments")
+                return _prog_call(_PURE_EXTERNALS[r[1]], *args, **kw_)
             if r is not None and r[0] == "external":
                 dv = self._external_default(r[1], n)
                 if dv is not self._MISSING:
@@ -750,9 +760,12 @@ class _Expr(SymEval):
                 return self.owner.ext_stubs[r[1]](self._args(n), {k.arg: self.eval(k.value) for k in n.keywords if k.arg is not None})
             if r is not None and r[0] == "external" and r[1] in _PURE_EXTERNALS:
                 args = self._args(n)
-                if not all(isinstance(a, str) for a in args):
+                if not all(isinstance(a, (str, int, _re.RegexFlag, _re.Pattern)) and not isinstance(a, bool) for a in args):
                     raise NotSymbolic(f"{r[1]} on non-constant arguments")
-                return _prog_call(_PURE_EXTERNALS[r[1]], *args)
+                kw_ = {k.arg: self.eval(k.value) for k in n.keywords if k.arg is not None}
+                if not all(isinstance(v, (str, int, _re.RegexFlag)) for v in kw_.values()):
+                    raise NotSymbolic(f"{r[1]} on non-constant keyword arguments")
+                return _prog_call(_PURE_EXTERNALS[r[1]], *args, **kw_)
             if r is not None and r[0] == "external":
                 dv = self._external_default(r[1], n)
                 if dv is not self._MISSING:
